@@ -402,7 +402,7 @@ v('C04', 'fire', E_, 'gyro_error=np.zeros(3)', 'gyro_error=np.ones(3)', 'survey:
 v('C04', 'silent', E_, 'gyro_error=np.zeros(3)', 'gyro_error=(0, 0, 0)')
 v('C05 C17 C19', 'fire', E_, 'single = rph.ndim == 1', 'single = rph.ndim != 1', 'survey: Euler-error matrix of the first state used for a whole table')
 v('C16 C19', 'fire', 'earth.py', 'return result[0] if re.ndim == 0 else result', 'return result[0] if re.ndim != 0 else result', 'survey: rank of the result exchanged between the forms')
-v('C04', 'fire', 'error_model.py', 'x0 = error_model.transform_to_internal(trajectory.iloc[0]) @ pva_error.values', 'x0 = error_model.transform_to_output(trajectory.iloc[0]) @ pva_error.values', 'propagation: initial error mapped with the wrong transform')
+v('C04', 'fire', 'error_model.py', 'x0 = (error_model.transform_to_internal(trajectory.iloc[0]) @', 'x0 = (error_model.transform_to_output(trajectory.iloc[0]) @', 'propagation: initial error mapped with the wrong transform')
 v('C04', 'silent', 'error_model.py', 'Phi = 0.5 * (Fi[1:] + Fi[:-1]) * dt.reshape(-1, 1, 1)', 'Phi = Fi[:-1] * dt.reshape(-1, 1, 1)', 'forward Euler: a different but consistent one-step scheme')
 v('C04', 'silent', 'error_model.py', 'x[i + 1] = Phi[i].dot(x[i]) + delta_sensor[i] * dt[i]', 'x[i + 1] = Phi[i] @ x[i] + dt[i] * delta_sensor[i]', 'spelling')
 v('C19 C14', 'fire', 'inertial_sensor.py', 'return cls(transform, bias, model.noise, model.bias_walk, rng)', 'return cls(transform=transform, bias=bias, noise=model.noise,\n                   bias_walk=model.bias_walk)', 'seeded C19 round 2: generator no longer forwarded to the constructor')
